@@ -37,7 +37,18 @@ class SG:
         return "(col %s %s)" % (h(tbl), h(c)) if qualified else "(col %s)" % h(c)
 
     def ival(self):
-        return "(val i:i32:%d)" % self.r.choice([0, 1, 2, 3, 5, 10, -1, 30])
+        # mostly small numbers, in every integer type of Value; now and then a number at or beyond the edge of a
+        # narrower type (a backend that narrows or re-types a bound integer binds another number)
+        r = self.r
+        if r.random() < 0.12:
+            ty, v = r.choice([("u32", 3000000000), ("u32", 4294967295), ("u32", 2147483648), ("i64", 9000000000),
+                              ("i64", -9000000000), ("u64", 9223372036854775807), ("u64", 5000000000),
+                              ("i32", 2147483647), ("i32", -2147483648), ("u16", 65535), ("u16", 40000), ("u8", 255),
+                              ("u8", 200), ("i16", -32768), ("i8", -128)])
+            return "(val i:%s:%d)" % (ty, v)
+        v = r.choice([0, 1, 2, 3, 5, 10, -1, 30])
+        ty = r.choice(["i32", "i32", "i32", "i8", "i16", "i64"] + ([] if v < 0 else ["u8", "u16", "u32", "u64"]))
+        return "(val i:%s:%d)" % (ty, v)
 
     def sval(self):
         # besides plain words: characters whose literal spelling differs by dialect (backslash, quotes, control
@@ -168,7 +179,14 @@ class SG:
         if r.random() < 0.3:
             other = "u" if tbl == "t" else "t"
             jt = r.choice(["inner", "left", "join", "cross"] + ([] if self.portable else ["right", "full"]))
-            cs.append("(join %s (ta %s %s) (bin eq %s %s))" % (jt, h("o"), h(other), self.col(tbl, "a"), self.col("o", "a")))
+            on = "(bin eq %s %s)" % (self.col(tbl, "a"), self.col("o", "a"))
+            k = r.random()
+            if k < 0.15:
+                # a member-less condition tree as ON: all() is TRUE, any() is FALSE, and the negation of either
+                on = "(cond %s%s)" % (r.choice(["any", "all"]), r.choice(["", " (not)", " (addnone)", " (addnone) (not)"]))
+            elif k < 0.3:
+                on = "(cond %s (add %s)%s)" % (r.choice(["any", "all"]), on, r.choice(["", " (not)", " (add %s)" % self.cond_expr(tbl, 1)]))
+            cs.append("(join %s (ta %s %s) %s)" % (jt, h("o"), h(other), on))
             joined = True
         cs += self.where(tbl)
         is_ordered = False
